@@ -9,7 +9,7 @@ git apply "$patch" || { echo "patch does not apply"; exit 2; }
 trap 'git -C /repo checkout -- . ; git -C /repo clean -fdq' EXIT
 if [ "${SUITE:-0}" = 1 ]; then
   . /verif/env.sh
-  (cd /repo && go build ./... && go test -vet=off -count=1 ./... 2>&1 | grep -v "^ok\|no test files" ; echo "suite rc=${PIPESTATUS[0]}")
+  (cd /repo && go build ./... && timeout 240 go test -vet=off -count=1 -timeout 200s ./... 2>&1 | grep -v "^ok\|no test files" ; echo "suite rc=${PIPESTATUS[0]}")
 fi
 for id in "$@"; do
   out=$(cd /verif && ./check $id ${TIER:-quick} 2>&1); rc=$?
